@@ -120,8 +120,8 @@ impl DataItem for DurationItem {
         }
 
         match operation_type {
-            OperationType::Add => Some(Rc::new(DurationItem(self.0 + other.as_any().downcast_ref::<Self>()?.get_duration()))),
-            OperationType::Sub => Some(Rc::new(DurationItem(self.0 - other.as_any().downcast_ref::<Self>()?.get_duration()))),
+            OperationType::Add => Some(Rc::new(DurationItem(self.0.checked_add(&other.as_any().downcast_ref::<Self>()?.get_duration())?))),
+            OperationType::Sub => Some(Rc::new(DurationItem(self.0.checked_sub(&other.as_any().downcast_ref::<Self>()?.get_duration())?))),
             _ => None
         }
     }
